@@ -89,7 +89,7 @@ def _yield_token_type(stmt):
     return None
 
 
-def tok_4(ctx, rep):
+def tok_4(ctx, rep, order=False):
     rep.rule('TOK-4', 'each push on the indentation stack is adjacent to a yield of INDENT, each pop to a yield of '
                       'DEDENT, and a store to the top entry to a yield of ERROR_DEDENT')
     f = ctx.prog.func(TOK, 'tokenize_lines')
@@ -131,7 +131,7 @@ def tok_4(ctx, rep):
                    'indentation stack change without an adjacent yield of a %s token' % kind)
             # the order the incremental parser relies on: it shares this list, looks at it when a token arrives
             # (len(indents) at a DEDENT) and abandons the generator at the first token after its stop line
-            if ok and lst is not None:
+            if order and ok and lst is not None:
                 before = i > 0 and _yield_token_type(lst[i - 1]) == kind
                 after = i + 1 < len(lst) and _yield_token_type(lst[i + 1]) == kind
                 want_yield_first = kind in ('INDENT', 'ERROR_DEDENT')
